@@ -125,9 +125,11 @@ _PYPREC = {"or": 1, "and": 2, "==": 4, "!=": 4, "<": 4, "<=": 4, ">": 4, ">=": 4
 
 
 def classify(out, verdicts, byid):
-    known_pairs, known_ast, known_seq = [], [], []
+    known_pairs, known_ast, known_seq, known_dev = [], [], [], []
     for k in out.known:
         sig = json.loads(k)
+        if "dev" in sig:
+            known_dev.append((sig["dev"], sig))
         if "opseq" in sig:
             known_seq.append((sig["opseq"], sig))
         if "ops" in sig:
@@ -156,10 +158,14 @@ def classify(out, verdicts, byid):
                       "text": rec["s"], "parser": rec["pp"], "importer": rec["ai"],
                       "python": rec["py"], "env_index": vv["env"], "clause": vv["v"]}
             if side == "p":
-                ps = pairs(rec["toks"])
-                hit = next((sig for pr, sig in known_pairs if pr in ps), None)
-                hit = hit or next((sig for sq, sig in known_seq if sq == op_sequence(rec["toks"])), None)
-                sig = hit or {"clause": vv["v"], "opseq_unlisted": op_sequence(rec["toks"])}
+                # TLC's attribution (C07_Judge.Explained): the real parser returned exactly what
+                # the unrepaired transcription predicts, the transcription with all NAMED
+                # deviations repaired reads the string as Python does, and these are the
+                # deviations whose repair alone changes the reading
+                devs = list(v.get("devs", []))
+                hit = next((sig for d, sig in known_dev if d in devs), None) if devs else None
+                sig = hit or {"clause": vv["v"], "opseq_unlisted": op_sequence(rec["toks"]),
+                              "deviations": devs}
             else:
                 kinds = set(rec["ast"])
                 hit = next((sig for a, sig in known_ast if a in kinds), None)
